@@ -9,7 +9,7 @@ PROPERTY_UNITS = {
     'C13': ['u_plan', 'u_exp1', 'u_exp2', 'u_exp3'],
     'C12': ['u_exp1', 'u_exp2'],
     'C10': ['u_exp2'],
-    'C11': ['u_exp3', 'u_exp2', 'u_blt'],
+    'C11': ['u_exp3', 'u_exp2', 'u_blt', 'u_plan'],
     'C07': ['u_fd', 'u_proc', 'u_plan', 'u_jobs', 'u_wait', 'u_jcmd'],
     'C15': ['u_args'],
     'C09': ['u_env', 'u_exp2', 'u_proc', 'u_read'],
@@ -21,7 +21,7 @@ PROPERTY_UNITS = {
 }
 from vx import kani_engine as _kani
 from vx import axcheck as _ax
-EXTRA_ENGINES = {'C19': [('kani', _kani.engine)]}
+EXTRA_ENGINES = {'C19': [('kani', _kani.engine)], 'C05': [('kani', _kani.engine)]}
 for _p in _ax.AXIOMS:
     EXTRA_ENGINES.setdefault(_p, []).append(('axcheck', _ax.engine_for(_p)))
 # bounded stand-in: enumerated inputs through the real binary (labelled bounded in the evidence, never counted as proved)
